@@ -85,6 +85,12 @@ def _one(uni_name, cls, cfg, prefix, op, k, kind, mode):
                 if not H.apply_event(run, ev, check=False):
                     out["prefix_failed"] = True
                     return
+            other = None
+            if mode in ("sibling", "parent"):
+                # a branch taken BEFORE the fault: the fault hits one of the two, the follow-ups go to the other
+                other = run.s.branch()
+                if mode == "parent":
+                    run.s, other = other, run.s
             # the operation under fault
             INJ.armed = True
             INJ.count = 0
@@ -118,6 +124,8 @@ def _one(uni_name, cls, cfg, prefix, op, k, kind, mode):
                     out["failure"] = dict(reason="fault-not-raised", answer=last)
                     return
             run.failure = None
+            if other is not None:
+                run.s = other
             # afterwards: everything must still be right
             fu = follow_ups(uni)
             if mode == "rev":
@@ -160,7 +168,7 @@ def _work(args):
         part.note("checks_per_operation", f"{op[0]}:{n}")
         for k in range(n):
             for kind in KINDS:
-                for mode in ("fwd", "rev", "branch"):
+                for mode in ("fwd", "rev", "branch", "sibling", "parent"):
                     o = _one(uni_name, cls, cfg, prefix, op, k, kind, mode)
                     part.count("transitions")
                     part.count("faulted_executions")
@@ -187,7 +195,7 @@ def run(tier: str) -> int:
         "fault_enumeration",
         rule="for every prefix history (<=2 events; thorough 3) x every operation x every index k of a z3_solver_sat call "
         "inside it x {fail before the check, fail after the check} x {timeout, unknown} x {follow-up queries forward, "
-        "reversed, on a fresh branch}: the faulted call must raise a ClaripyError and every later answer must satisfy the "
+        "reversed, on a fresh branch, on a branch taken before the fault (fault in either of the two)}: the faulted call must raise a ClaripyError and every later answer must satisfy the "
         "brute-force oracle; a case is non-trivial when the fault position was actually reached",
     )
     uni = H.universe("bv3")
